@@ -706,8 +706,16 @@ def rule_docstring_fsm(rep: Report, rid="C13.fsm", cls_q=MQ, openers=('"""', "``
     closed = []
     for sn, ctx in m.sinks:
         gs = nf.guards_in_ctx(ctx)
-        pol = [p for c, p in gs if c == active]
         tests = [(c, p) for c, p in gs if c[0] == "call" and c[1] == ".startswith"]
+        # which states of the delimiter field reach this match: decided over the field's value set {None} + delimiters,
+        # so any spelling of the test (truthiness, 'is None', == '', a match statement ...) reads the same
+        state_guards = [(c, p) for c, p in gs if (c, p) not in tests]
+        reach = nf.guard_states(state_guards, active, [None] + list(openers))
+        pol = []
+        if reach == [None]:
+            pol = [False]
+        elif reach is not None and set(reach) == set(openers):
+            pol = [True]
         a = sn[1]
         w = _activation_writes(m, sn, (N.DS_ACTIVE, N.DS_INDENT))
         kw = _kw(m, sn[2])
